@@ -803,7 +803,7 @@ impl SwiftParser {
         let mut chars = text.char_indices();
 
         // Skip the first character (should be '{')
-        let mut brace_count = if let Some((_, '{')) = chars.next() {
+        let mut brace_count: usize = if let Some((_, '{')) = chars.next() {
             1
         } else {
             return None;
